@@ -198,3 +198,40 @@ func numOf(v interface{}) (float64, bool) {
 	}
 	return 0, false
 }
+
+// Path addresses a position inside a generic JSON value.
+type Path []pstep
+
+// AllPaths lists every position (containers and leaves, root included).
+func AllPaths(v interface{}) []Path {
+	var raw [][]pstep
+	leafPaths(v, nil, &raw)
+	out := make([]Path, len(raw))
+	for i, p := range raw {
+		out[i] = Path(p)
+	}
+	return out
+}
+
+// ReplaceAt returns a deep copy of v with the value at p replaced by nv.
+func ReplaceAt(v interface{}, p Path, nv interface{}) interface{} {
+	c := oracle.DeepCopy(v)
+	return setAt(c, []pstep(p), oracle.DeepCopy(nv))
+}
+
+// RemoveAt returns a deep copy of v with the member / element at p removed (nil for the root).
+func RemoveAt(v interface{}, p Path) interface{} {
+	if len(p) == 0 {
+		return nil
+	}
+	c := oracle.DeepCopy(v)
+	parent := getAt(c, []pstep(p[:len(p)-1]))
+	last := p[len(p)-1]
+	if last.arr {
+		l := parent.([]interface{})
+		nl := append(append([]interface{}{}, l[:last.idx]...), l[last.idx+1:]...)
+		return setAt(c, []pstep(p[:len(p)-1]), nl)
+	}
+	delete(parent.(map[string]interface{}), last.key)
+	return c
+}
